@@ -44,6 +44,8 @@ func LoadReaders(path string) (seed int64, d time.Duration, err error) {
 	return 0, 0, fmt.Errorf("not a readers case")
 }
 
+var osReadFile = os.ReadFile
+
 var pairRe = regexp.MustCompile(`([A-Za-z0-9_]+):(\d+)`)
 
 func parityOf(view string, wantOdd bool) string {
